@@ -35,8 +35,8 @@ def noninterference(rep, model, fname, runner, site):
     nj, pg = ('param', 'n_jobs'), ('param', 'progress')
     bad = []
     for e in ctx.trace:
-        if e['kind'] not in ('call', 'pkgcall'):
-            continue
+        if e['kind'] not in ('call', 'pkgcall') or e.get('inlined'):
+            continue            # an inlined helper is transparent: what its body does with the value follows in the trace
         terms = list(e['args']) + [v for _, v in e['kwargs']]
         short = e['name'].rsplit('.', 1)[-1]
         if any(nj in set(T.walk(t)) for t in terms) and short not in ('Pool', 'compute_features_2d'):
